@@ -73,6 +73,7 @@ func (o dop) String() string {
 type dclient struct {
 	mac      refdec.MAC
 	useID    bool
+	id       []byte // explicit client identifier (option 61), overrides useID
 	xid      [4]byte
 	xidN     byte
 	offered  netip.Addr
@@ -97,6 +98,9 @@ type dhcpRun struct {
 }
 
 func (d *dhcpRun) clientID(cl *dclient) []byte {
+	if cl.id != nil {
+		return cl.id
+	}
 	if cl.useID {
 		return append([]byte{1}, cl.mac[:]...)
 	}
@@ -195,6 +199,11 @@ func (d *dhcpRun) history() {
 	m := mon.NewDHCPMon(mon.DHCPCfg{Home: nic.HomeLAN, Netfilter: d.net.netfilter.Masked(), HostIP: nic.HostIP, RouterIP: nic.RouterIP, DNS: dns,
 		FamilyDNS: netip.MustParseAddr("1.1.1.3"), Lease: 4 * time.Hour}, time.Now)
 	cls := []*dclient{{mac: dhcpClients[0]}, {mac: dhcpClients[1], useID: true}, {mac: dhcpClients[2], useID: d.idx%2 == 0}}
+	if d.idx%3 == 0 {
+		// a second DHCP client behind the same network card as client 1 (a virtual machine or container bridged without its
+		// own MAC, a boot loader and the installed system): same chaddr, another client identifier - a different client
+		cls = append(cls, &dclient{mac: dhcpClients[1], id: []byte{0, 'v', 'm', '-', 'b'}})
+	}
 	time.Sleep(3 * time.Second)
 	synctest.Wait()
 	rec.Take()
@@ -516,7 +525,7 @@ var dhcpAlphabet = func() []dop {
 }()
 
 func randDop(r *rand.Rand) dop {
-	c := r.Intn(3)
+	c := r.Intn(4) // client 3 exists in every third history (else it stands for client 0)
 	switch k := r.Intn(26); {
 	case k >= 24:
 		return dop{K: "restart", P: r.Intn(4)}
